@@ -273,8 +273,19 @@ Definition mon0 (g : graph) : mon := {| mb := base0 g; viol := [] |}.
 Definition step_ev (c : cfg) (g : graph) (p : pin) (m : mon) (e : event) : mon :=
   {| mb := step_base c g p (mb m) e; viol := viol m ++ flags_ev c g p (mb m) e |}.
 
+(** A cancel REQUEST is an input of the poll (the .cancel.lock file), not an
+    adapter call: it is in force from the start of the poll whether or not the
+    code then calls cancel_jobs, and the first adapter call of such a poll must be
+    that cancel_jobs call (code 73). *)
+Definition pre_poll (p : pin) (es : list event) (m : mon) : mon :=
+  if cancel_req p then
+    {| mb := set_cseen (mb m) true;
+       viol := viol m ++ ck (match es with ECancel _ :: _ => true | _ => false end) 73 |}
+  else m.
+
 Definition step_poll (c : cfg) (g : graph) (m : mon) (po : pin * obs) : mon :=
   let '(p, (es, rows, stat)) := po in
+  let m := pre_poll p es m in
   let m := fold_left (step_ev c g p) es m in
   {| mb := end_base c g (mb m) rows; viol := viol m ++ flags_end c g p (mb m) rows stat |}.
 
@@ -295,7 +306,7 @@ Definition family (pid : nat) : list nat :=
   | 4 => [4; 41; 42; 43; 44; 46; 47; 40]
   | 5 => [51; 52; 53; 54; 55; 42]
   | 6 => [61; 62; 63; 66; 67]
-  | 7 => [7; 71; 72]
+  | 7 => [7; 71; 72; 73]
   | 12 => [12; 40]
   | 17 => [17; 171; 172; 173]
   | 19 => [19; 191; 192]
